@@ -1,6 +1,6 @@
 """C16 - Signatures and certificates verify only when nothing was altered.
 
-Pure-function check (no connections).  Case kinds:
+Pure-function check, plus one connection-level leg.  Case kinds:
 
   sig        key x signature algorithm x message: sign/verify, independent
              PyCA verification of what asyncssh signed and asyncssh
@@ -17,6 +17,12 @@ Pure-function check (no connections).  Case kinds:
              lines (principals, namespaces, validity, cert-authority), edits
              of message / namespace / armored body, validity boundaries
              compared with `ssh-keygen -Y verify -O verify-time=`.
+
+  cert_use   the certificate rules at the places a certificate is used: host
+             certificates checked by a connecting client and user
+             certificates checked by a server, the CA taken from
+             known_hosts / authorized_keys or vouched for by the
+             application's validate_host_ca_key / validate_ca_key.
 
 Soundness: an edit that yields a different byte string with the same meaning
 (ECDSA r/s re-encoded, base64 padding bits, the unsigned SSHSIG reserved
